@@ -33,9 +33,19 @@ def _copy(e):
 
 
 def canon_guard(test, repo, module, cls=None, env=None, negate=False):
-    """canonical text of a boolean guard: names folded to constants, constants on the right, `not` pushed inward,
-    integer strict/non-strict bounds unified to `>`/`<` forms where the bound is a constant"""
+    """canonical text of a boolean guard: names folded to constants, `not` pushed inward, chains and `in (..)` expanded,
+    every ordering comparison brought to the linear normal form `sum(terms) < c` / `> c` (integers: <= c is < c+1), so
+    that operand order, side swapping, moved constants and strict/non-strict spellings of one test coincide"""
     e = _Folder(repo, module, cls, env).visit(_copy(test))
+    return _canon_text_of(e, negate)
+
+
+def canon_text(text, negate=False):
+    """the same canonical form for an expected guard given as text (constants already literal)"""
+    return _canon_text_of(ast.parse(text, mode='eval').body, negate)
+
+
+def _canon_text_of(e, negate=False):
     e = _push_not(e, negate)
     t = ast.unparse(ast.fix_missing_locations(_order(e)))
     try:
@@ -44,14 +54,30 @@ def canon_guard(test, repo, module, cls=None, env=None, negate=False):
         return t
 
 
+def same_guard(a, b):
+    """are two guard texts (canonical or not) the same test?"""
+    try:
+        return canon_text(a) == canon_text(b)
+    except SyntaxError:
+        return a == b
+
+
 def _push_not(e, neg):
     if isinstance(e, ast.UnaryOp) and isinstance(e.op, ast.Not):
         return _push_not(e.operand, not neg)
+    if isinstance(e, ast.Call) and isinstance(e.func, ast.Name) and e.func.id == 'bool' and len(e.args) == 1 and not e.keywords:
+        return _push_not(e.args[0], neg)
     if isinstance(e, ast.BoolOp):
-        vals = [_push_not(v, neg) for v in e.values]
+        vals = []
         op = e.op
         if neg:
             op = ast.Or() if isinstance(e.op, ast.And) else ast.And()
+        for v in e.values:
+            pv = _push_not(v, neg)
+            if isinstance(pv, ast.BoolOp) and type(pv.op) is type(op):
+                vals.extend(pv.values)
+            else:
+                vals.append(pv)
         return ast.BoolOp(op=op, values=vals)
     if isinstance(e, ast.Compare):
         if len(e.ops) == 1:
@@ -61,6 +87,13 @@ def _push_not(e, neg):
                 if t is None:
                     return ast.UnaryOp(op=ast.Not(), operand=e)
                 op = t()
+            # x in (A, B) -> x == A or x == B ; x not in (A, B) -> x != A and x != B
+            c = e.comparators[0]
+            if isinstance(op, (ast.In, ast.NotIn)) and isinstance(c, (ast.Tuple, ast.List, ast.Set)) and 0 < len(c.elts) <= 8:
+                parts = [ast.Compare(left=e.left, ops=[ast.Eq() if isinstance(op, ast.In) else ast.NotEq()], comparators=[x]) for x in c.elts]
+                if len(parts) == 1:
+                    return parts[0]
+                return ast.BoolOp(op=ast.Or() if isinstance(op, ast.In) else ast.And(), values=parts)
             return ast.Compare(left=e.left, ops=[op], comparators=e.comparators)
         # chained a <= x <= b  ==  a <= x and x <= b
         parts = []
@@ -69,25 +102,126 @@ def _push_not(e, neg):
             parts.append(ast.Compare(left=left, ops=[op], comparators=[right]))
             left = right
         return _push_not(ast.BoolOp(op=ast.And(), values=parts), neg)
+    if isinstance(e, ast.IfExp) and isinstance(e.body, ast.Constant) and isinstance(e.orelse, ast.Constant) \
+            and isinstance(e.body.value, bool) and isinstance(e.orelse.value, bool) and e.body.value != e.orelse.value:
+        return _push_not(e.test, neg if e.body.value else not neg)
+    if _is_len(e):
+        return ast.Compare(left=e, ops=[ast.Lt() if neg else ast.Gt()], comparators=[ast.Constant(value=1 if neg else 0)])
     if neg:
         return ast.UnaryOp(op=ast.Not(), operand=e)
     return e
 
 
+def _linear(e):
+    """integer-linear view of an expression: ({atom text: coefficient}, constant) or None"""
+    if isinstance(e, ast.Constant):
+        if isinstance(e.value, int) and not isinstance(e.value, bool):
+            return {}, e.value
+        return None
+    if isinstance(e, ast.UnaryOp) and isinstance(e.op, ast.USub):
+        r = _linear(e.operand)
+        if r is None:
+            return None
+        return {k: -v for k, v in r[0].items()}, -r[1]
+    if isinstance(e, ast.UnaryOp) and isinstance(e.op, ast.UAdd):
+        return _linear(e.operand)
+    if isinstance(e, ast.BinOp) and isinstance(e.op, (ast.Add, ast.Sub)):
+        a, b = _linear(e.left), _linear(e.right)
+        if a is None or b is None:
+            return None
+        sgn = 1 if isinstance(e.op, ast.Add) else -1
+        terms = dict(a[0])
+        for k, v in b[0].items():
+            terms[k] = terms.get(k, 0) + sgn * v
+        return {k: v for k, v in terms.items() if v}, a[1] + sgn * b[1]
+    if isinstance(e, ast.BinOp) and isinstance(e.op, ast.Mult):
+        a, b = _linear(e.left), _linear(e.right)
+        if a is not None and b is not None:
+            if not a[0]:
+                return {k: v * a[1] for k, v in b[0].items() if v * a[1]}, a[1] * b[1]
+            if not b[0]:
+                return {k: v * b[1] for k, v in a[0].items() if v * b[1]}, a[1] * b[1]
+    if isinstance(e, (ast.Constant,)):
+        return None
+    if isinstance(e, (ast.Tuple, ast.List, ast.Dict, ast.Set, ast.JoinedStr, ast.Lambda, ast.Compare, ast.BoolOp)):
+        return None
+    return {ast.unparse(e): 1}, 0
+
+
+def _lin_expr(terms):
+    parts = []
+    for k in sorted(terms):
+        c = terms[k]
+        atom = '(%s)' % k if not k.replace('_', 'a').replace('.', 'a').isalnum() and not k.endswith((')', ']')) else k
+        if c == 1:
+            parts.append(('+', atom))
+        elif c == -1:
+            parts.append(('-', atom))
+        elif c > 0:
+            parts.append(('+', '%d * %s' % (c, atom)))
+        else:
+            parts.append(('-', '%d * %s' % (-c, atom)))
+    txt = ''
+    for i, (sg, a) in enumerate(parts):
+        if i == 0:
+            txt = a if sg == '+' else '-' + a
+        else:
+            txt += ' %s %s' % (sg, a)
+    return txt
+
+
+def _is_len(e):
+    return isinstance(e, ast.Call) and isinstance(e.func, ast.Name) and e.func.id == 'len'
+
+
 def _order(e):
     if isinstance(e, ast.BoolOp):
         return ast.BoolOp(op=e.op, values=[_order(v) for v in e.values])
+    if isinstance(e, ast.UnaryOp) and isinstance(e.op, ast.Not):
+        return ast.UnaryOp(op=ast.Not(), operand=_order(e.operand))
     if isinstance(e, ast.Compare) and len(e.ops) == 1:
         l, op, r = e.left, e.ops[0], e.comparators[0]
+        ordering = isinstance(op, (ast.Lt, ast.LtE, ast.Gt, ast.GtE))
+        equality = isinstance(op, (ast.Eq, ast.NotEq))
+        ll, lr = _linear(l), _linear(r)
+        arith = isinstance(l, (ast.BinOp, ast.UnaryOp)) or isinstance(r, (ast.BinOp, ast.UnaryOp)) \
+            or (isinstance(l, ast.Constant) and isinstance(l.value, int) and not isinstance(l.value, bool)) \
+            or (isinstance(r, ast.Constant) and isinstance(r.value, int) and not isinstance(r.value, bool))
+        if ll is not None and lr is not None and (ordering or (equality and arith)):
+            terms = dict(ll[0])
+            for k, v in lr[0].items():
+                terms[k] = terms.get(k, 0) - v
+            terms = {k: v for k, v in terms.items() if v}
+            const = lr[1] - ll[1]
+            if terms:
+                first = sorted(terms)[0]
+                if terms[first] < 0:
+                    terms = {k: -v for k, v in terms.items()}
+                    const = -const
+                    op = FLIP[type(op)]()
+                # integers: E <= c  ==  E < c+1 ;  E >= c  ==  E > c-1
+                if isinstance(op, ast.LtE):
+                    op, const = ast.Lt(), const + 1
+                elif isinstance(op, ast.GtE):
+                    op, const = ast.Gt(), const - 1
+                # a length is never negative: == 0 is < 1, != 0 is > 0
+                if len(terms) == 1 and list(terms.values())[0] == 1 and list(terms)[0].startswith('len(') and const == 0:
+                    if isinstance(op, ast.Eq):
+                        op, const = ast.Lt(), 1
+                    elif isinstance(op, ast.NotEq):
+                        op, const = ast.Gt(), 0
+                left = ast.parse(_lin_expr(terms), mode='eval').body
+                return ast.Compare(left=left, ops=[op], comparators=[ast.Constant(value=const)])
         if isinstance(l, ast.Constant) and not isinstance(r, ast.Constant) and type(op) in FLIP:
             l, r, op = r, l, FLIP[type(op)]()
-        # x >= c  ->  x > c-1 ; x <= c -> x < c+1   (integers)
-        if isinstance(r, ast.Constant) and isinstance(r.value, int) and not isinstance(r.value, bool):
-            if isinstance(op, ast.GtE):
-                op, r = ast.Gt(), ast.Constant(value=r.value - 1)
-            elif isinstance(op, ast.LtE):
-                op, r = ast.Lt(), ast.Constant(value=r.value + 1)
+        elif equality and not isinstance(l, ast.Constant) and not isinstance(r, ast.Constant) and ast.unparse(l) > ast.unparse(r):
+            l, r = r, l
+        elif ordering and not isinstance(r, ast.Constant) and isinstance(op, (ast.Gt, ast.GtE)):
+            l, r, op = r, l, FLIP[type(op)]()
         return ast.Compare(left=l, ops=[op], comparators=[r])
+    if _is_len(e):
+        # a bare length used as a truth value
+        return ast.Compare(left=e, ops=[ast.Gt()], comparators=[ast.Constant(value=0)])
     return e
 
 
@@ -105,6 +239,8 @@ def raising_guards(fnode, repo, module, cls=None, env=None, noreturn=()):
 def check_rule(rule, key, fi, repo, accepted, measure, what, env=None, noreturn=()):
     """find a raising guard whose canonical form is one of `accepted`; otherwise report the guard(s) on `measure`"""
     guards = raising_guards(fi.node, repo, fi.module, fi.cls, env, noreturn)
+    accepted = [canon_text(a) for a in accepted]
+    measure = canon_text(measure) if False else measure
     for g, n in guards:
         if g in accepted:
             rule.ok(key, '%s:%d' % (fi.module.relpath, n.lineno), '%s: `%s`' % (what, g))
@@ -116,3 +252,136 @@ def check_rule(rule, key, fi, repo, accepted, measure, what, env=None, noreturn=
     else:
         rule.violated(key, fi.site, '%s: no raising guard `%s` in %s' % (what, accepted[0], fi.qualname))
     return None
+
+
+# ------------------------------------------------------------------------------------------------ formula equivalence
+class _Cells(object):
+    """Decision procedure for Boolean combinations of (a) comparisons of an integer-linear term with a constant and
+    (b) opaque atoms: the truth value of such a formula is constant on every cell of the partition the constants induce
+    on each term's number line, so evaluating two formulas on one representative per cell (times every assignment of
+    the opaque atoms) decides their equivalence.  Terms must not share variables (otherwise: None = undecided)."""
+
+    def __init__(self, formulas):
+        self.terms = {}  # term text -> set of constants
+        self.free = []
+        self.ok = True
+        for f in formulas:
+            self.collect(f)
+
+    def atom_kind(self, e):
+        if isinstance(e, ast.Compare) and len(e.ops) == 1 and isinstance(e.comparators[0], ast.Constant) \
+                and isinstance(e.comparators[0].value, int) and not isinstance(e.comparators[0].value, bool) \
+                and isinstance(e.ops[0], (ast.Lt, ast.Gt, ast.Eq, ast.NotEq, ast.LtE, ast.GtE)) and not isinstance(e.left, ast.Constant):
+            return 'lin'
+        return 'free'
+
+    def collect(self, e):
+        if isinstance(e, ast.BoolOp):
+            for v in e.values:
+                self.collect(v)
+        elif isinstance(e, ast.UnaryOp) and isinstance(e.op, ast.Not):
+            self.collect(e.operand)
+        elif isinstance(e, ast.Constant):
+            pass
+        elif self.atom_kind(e) == 'lin':
+            self.terms.setdefault(ast.unparse(e.left), set()).add(e.comparators[0].value)
+        else:
+            t = ast.unparse(e)
+            if t not in self.free:
+                self.free.append(t)
+
+    def variables_disjoint(self):
+        import re
+        seen = {}
+        for t in self.terms:
+            lin = _linear(ast.parse(t, mode='eval').body)
+            atoms = list(lin[0]) if lin else [t]
+            for a in atoms:
+                if a in seen and seen[a] != t:
+                    return False
+                seen[a] = t
+        # an opaque atom that mentions a term's variable is still independent of its *value* only if it is not a
+        # comparison of that variable; comparisons with non-integer constants are opaque by construction
+        return True
+
+    def cells(self):
+        import itertools
+        axes = []
+        names = []
+        for t in sorted(self.terms):
+            pts = set()
+            for c in self.terms[t]:
+                pts.update((c - 1, c, c + 1))
+            if t.startswith('len(') and t.endswith(')') and t.count('(') == t.count(')'):
+                pts = {p for p in pts if p >= 0} | {0}
+            names.append(t)
+            axes.append(sorted(pts))
+        n = 1
+        for a in axes:
+            n *= len(a)
+        n *= 2 ** len(self.free)
+        if n > 200000:
+            return None
+        out = []
+        for vals in itertools.product(*axes) if axes else [()]:
+            for bits in itertools.product((False, True), repeat=len(self.free)):
+                env = dict(zip(names, vals))
+                env.update(dict(zip(self.free, bits)))
+                out.append(env)
+        return out
+
+    def ev(self, e, env):
+        if isinstance(e, ast.BoolOp):
+            vals = [self.ev(v, env) for v in e.values]
+            return all(vals) if isinstance(e.op, ast.And) else any(vals)
+        if isinstance(e, ast.UnaryOp) and isinstance(e.op, ast.Not):
+            return not self.ev(e.operand, env)
+        if isinstance(e, ast.Constant):
+            return bool(e.value)
+        if self.atom_kind(e) == 'lin':
+            v = env[ast.unparse(e.left)]
+            c = e.comparators[0].value
+            op = e.ops[0]
+            return {ast.Lt: v < c, ast.Gt: v > c, ast.Eq: v == c, ast.NotEq: v != c, ast.LtE: v <= c, ast.GtE: v >= c}[type(op)]
+        return env[ast.unparse(e)]
+
+
+def _canon_ast(text_or_ast, negate=False):
+    e = ast.parse(text_or_ast, mode='eval').body if isinstance(text_or_ast, str) else _copy(text_or_ast)
+    return ast.parse(_canon_text_of(e, negate), mode='eval').body
+
+
+def equiv(a, b, domain=None):
+    """True / False / None (undecided): are two guard formulas (text or AST, constants literal) equivalent?
+    `domain` restricts terms: {term text: (lo, hi)} with None for unbounded.  On False, `equiv.witness` holds a
+    distinguishing cell."""
+    fa, fb = _canon_ast(a), _canon_ast(b)
+    if ast.unparse(fa) == ast.unparse(fb):
+        return True
+    c = _Cells([fa, fb])
+    if not c.variables_disjoint():
+        return None
+    cells = c.cells()
+    if cells is None:
+        return None
+    if domain:
+        def inside(env):
+            for t, (lo, hi) in domain.items():
+                if t in env and ((lo is not None and env[t] < lo) or (hi is not None and env[t] > hi)):
+                    return False
+            return True
+        cells = [e_ for e_ in cells if inside(e_)]
+    for env in cells:
+        if c.ev(fa, env) != c.ev(fb, env):
+            equiv.witness = env
+            return False
+    return True
+
+
+equiv.witness = None
+
+
+def equiv_folded(test, repo, module, expected_text, cls=None, env=None, domain=None):
+    """equiv() of a guard in the code (names folded first) with an expected formula given as text"""
+    e = _Folder(repo, module, cls, env).visit(_copy(test))
+    return equiv(e, expected_text, domain)
